@@ -20,7 +20,7 @@ def jobs(tier):
     # names per connection: the C04 RequestName step already carries a symbolic limit and counter
     for j in _other("C04").jobs(tier):
         if j.name.startswith("request."):
-            j.name = "names." + j.name; j.group = "C13.names"; j.defines = dict(j.defines, VF_SKIP_F3=1); J.append(j)
+            j.name = "names." + j.name; j.group = "C13.names"; j.defines = dict(j.defines, VF_SKIP_FINDINGS=1); J.append(j)
     # pending replies per connection: the C09 expect step carries the symbolic limit
     for j in _other("C09").jobs(tier):
         if j.name.startswith("expect."):
